@@ -471,7 +471,11 @@ func runC16(c *fw.Ctx) {
 	psrcs = append(psrcs,
 		[]byte("package p\n\n// header, detached\n\nfunc a() {}\n\n// trailing comment of a.go\n"),
 		[]byte("// Package p doc.\npackage p\n\nfunc b() {\n\t// hanging\n}\n\n/* trailing block of b.go */\n"),
-		[]byte("package p\n\nvar c = 1 // c\n\n// last words of c.go\n"))
+		[]byte("package p\n\nvar c = 1 // c\n\n// last words of c.go\n"),
+		// import tables that differ between the files of one package
+		[]byte("package p\n\nimport \"html/template\"\n\nvar T1 template.HTML\n"),
+		[]byte("package p\n\nimport \"text/template\"\n\nvar T2 *template.Template\n"),
+		[]byte("package p\n\nimport (\n\trand \"crypto/rand\"\n\t\"os\"\n)\n\nvar R = rand.Reader\n\nvar A = os.Args\n"))
 	for g := 0; g+2 < len(psrcs); g += 3 {
 		id := fmt.Sprintf("repeat-package:%d", g/3)
 		group := psrcs[g : g+3]
@@ -519,6 +523,54 @@ func runC16(c *fw.Ctx) {
 			}
 			c.Count("package_repetitions", int64(n))
 			c.Nontrivial(id)
+			// the same with import resolution: every file is resolved against its own imports,
+			// whatever the order in which the files of the package are visited
+			aloneImp := map[string]string{}
+			for k, src := range group {
+				fset := token.NewFileSet()
+				af, err := parser.ParseFile(fset, "f.go", src, parser.ParseComments)
+				if err != nil {
+					return
+				}
+				df, err := decorator.NewDecoratorWithImports(fset, "example.com/self", goast.WithResolver(guessMap)).DecorateFile(af)
+				if err != nil {
+					return // a file the syntax-based resolver refuses (dot-import)
+				}
+				var b bytes.Buffer
+				if err := decorator.NewRestorerWithImports("example.com/self", guessMap).Fprint(&b, df); err != nil {
+					return
+				}
+				aloneImp[fmt.Sprintf("f%d.go", k)] = b.String()
+			}
+			for rep := 0; rep < n; rep++ {
+				fset := token.NewFileSet()
+				pkg := &ast.Package{Name: "p", Files: map[string]*ast.File{}}
+				for k, src := range group {
+					name := fmt.Sprintf("f%d.go", k)
+					af, err := parser.ParseFile(fset, name, src, parser.ParseComments)
+					if err != nil {
+						return
+					}
+					pkg.Files[name] = af
+				}
+				dn, err := decorator.NewDecoratorWithImports(fset, "example.com/self", goast.WithResolver(guessMap)).DecorateNode(pkg)
+				if err != nil {
+					c.Violate("package-decoration-error", "package-decoration-error:imports", id+": "+err.Error(), "")
+					return
+				}
+				for name, df := range dn.(*dst.Package).Files {
+					var b bytes.Buffer
+					if err := decorator.NewRestorerWithImports("example.com/self", guessMap).Fprint(&b, df); err != nil {
+						c.Violate("nondeterministic", "nondeterministic:package-print-error:imports", fmt.Sprintf("%s repetition %d: %s: %v", id, rep, name, err), aloneImp[name])
+						return
+					}
+					if b.String() != aloneImp[name] {
+						c.Violate("nondeterministic", "nondeterministic:package-decoration:imports", fmt.Sprintf("%s repetition %d: %s decorated with import resolution as part of the package differs from the file decorated alone:\n%s", id, rep, name, b.String()), aloneImp[name])
+						return
+					}
+				}
+			}
+			c.Count("package_repetitions_with_imports", int64(n))
 		})
 	}
 }
